@@ -224,6 +224,17 @@ static void phase_b(int t, int r, int n, std::vector<SU_vector>& pool, Results& 
   pool.clear();
 }
 
+// A producer / consumer pair: the consumer's ONLY library activity is to receive vectors built elsewhere, form scalar
+// products (no allocation) and destroy them - every block it ever touches was allocated by another thread.
+static const int NHAND = 12;
+static SU_vector handover_vector(int k, unsigned seed) { SU_vector v(2 + k % 5); fill(v, seed + 977 * k); return v; }
+static std::string consume(SU_vector& in) {
+  double s = in * in;
+  std::string r = "cons " + hex(digest(&s, 1)) + hex(digest(&in[0], in.Size()));
+  in = SU_vector();          // the block allocated by the producer is released here
+  return r;
+}
+
 int main(int argc, char** argv) {
   if (argc < 5) return 3;
   std::string mode = argv[1]; int n = atoi(argv[2]); int rounds = atoi(argv[3]); unsigned seed = atoi(argv[4]);
@@ -233,10 +244,11 @@ int main(int argc, char** argv) {
   shared = new FrozenSolver(6, 3);
   for (int i = 0; i < n; i++) queues.push_back(new Queue());
   std::vector<Results> res(n);
-  Results qres;
+  Results qres, cres;
   SU_vector* qop = new SU_vector(SU_vector::Projector(3, 1));
   if (mode == "ref") {
     for (int r = 0; r < rounds * 8; r++) qres.r.push_back(query_all(*qop, n, r));
+    for (int k = 0; k < NHAND; k++) { SU_vector v = handover_vector(k, seed); cres.r.push_back(consume(v)); }
     std::vector<std::vector<SU_vector>> pools(n);
     for (int r = 0; r < rounds; r++) {
       for (int t = 0; t < n; t++) phase_a(t, r, n, seed, pools[t], res[t]);
@@ -271,6 +283,44 @@ int main(int argc, char** argv) {
       for (int id = 1; id <= MAXB; id++) if (used[id] && cached_by[id] == n + 1) left += (left.empty() ? "" : ",") + std::to_string(id);
       logv.push_back("{\"e\":\"Exit\",\"t\":" + std::to_string(n + 1) + ",\"left\":[" + left + "]}");
     }
+    {
+      Queue hq;
+      auto exit_event = [&](int tid) {
+        if (!tracing) return;
+        std::lock_guard<std::mutex> g(logm);
+        std::string left;
+        for (int id = 1; id <= MAXB; id++) if (used[id] && cached_by[id] == tid) left += (left.empty() ? "" : ",") + std::to_string(id);
+        logv.push_back("{\"e\":\"Exit\",\"t\":" + std::to_string(tid) + ",\"left\":[" + left + "]}");
+      };
+      std::thread cons([&] {
+        my_tid = n + 3;
+        for (int k = 0; k < NHAND; k++) {
+          SU_vector in;
+          {
+            std::unique_lock<std::mutex> g(hq.m);
+            hq.cv.wait(g, [&] { return !hq.q.empty(); });
+            in = std::move(hq.q.front()); hq.q.pop_front();
+            if (tracing) { int bid = block_id_of(in); std::lock_guard<std::mutex> g2(logm); logline("{\"e\":\"Recv\",\"t\":%d,\"b\":%d}", my_tid, bid); }
+          }
+          cres.r.push_back(consume(in));
+        }
+      });
+      std::thread prod([&] {
+        my_tid = n + 2;
+        for (int k = 0; k < NHAND; k++) {
+          SU_vector out = handover_vector(k, seed);
+          int bid = tracing ? block_id_of(out) : 0;
+          {
+            std::lock_guard<std::mutex> g(hq.m);
+            if (tracing) { std::lock_guard<std::mutex> g2(logm); logline("{\"e\":\"Send\",\"t\":%d,\"b\":%d}", my_tid, bid); }
+            hq.q.push_back(std::move(out));
+          }
+          hq.cv.notify_one();
+        }
+      });
+      prod.join(); exit_event(n + 2);
+      cons.join(); exit_event(n + 3);
+    }
     for (int t = 0; t < n; t++) {
       ths[t].join();
       if (tracing) {
@@ -284,6 +334,7 @@ int main(int argc, char** argv) {
   for (auto& l : logv) puts(l.c_str());
   for (int t = 0; t < n; t++) for (size_t k = 0; k < res[t].r.size(); k++) printf("RES %d %zu %s\n", t, k, res[t].r[k].c_str());
   for (size_t k = 0; k < qres.r.size(); k++) printf("RES %d %zu %s\n", n, k, qres.r[k].c_str());
+  for (size_t k = 0; k < cres.r.size(); k++) printf("RES %d %zu %s\n", n + 1, k, cres.r[k].c_str());
   puts("DONE");
   fflush(stdout);
   _exit(0);
